@@ -28,7 +28,7 @@ def _setup(rng, Lmax=6, maxdim=1024):
         d = int(rng.choice([1, 2, 3]))
         while d ** L > maxdim:
             L -= 1
-        qd = _qd(rng, d, str(rng.choice(['zero', 'unsorted', 'pairs'])))
+        qd = _qd(rng, d, str(rng.choice(['zero', 'unsorted', 'pairs', 'huge'])))
         if src == 'hermitian':
             H = gen.rand_hermitian_mpo(rng, qd, L, Dmax=2)
             herm = True
